@@ -177,6 +177,39 @@ func (p *Program) parseSpecSigs(src string) {
 		}
 		p.specSigs[name] = SpecSig{ps, norm(ret)}
 	}
+	// datatypes: constructors and selectors
+	for i := 0; ; {
+		j := strings.Index(src[i:], "(declare-datatypes")
+		if j < 0 {
+			break
+		}
+		j += i
+		end := matchParen(src, j)
+		parts := splitSexprs(src[j+1 : end]) // declare-datatypes, ((Name 0)...), ((ctors...)...)
+		i = end
+		if len(parts) != 3 {
+			continue
+		}
+		names := splitSexprs(parts[1][1 : len(parts[1])-1])
+		defs := splitSexprs(parts[2][1 : len(parts[2])-1])
+		for k, nm := range names {
+			if k >= len(defs) {
+				break
+			}
+			tname := strings.Fields(strings.Trim(nm, "()"))[0]
+			for _, ctor := range splitSexprs(defs[k][1 : len(defs[k])-1]) {
+				cp := splitSexprs(ctor[1 : len(ctor)-1])
+				var ps []string
+				for _, sel := range cp[1:] {
+					sp := splitSexprs(sel[1 : len(sel)-1])
+					srt := norm(strings.Join(sp[1:], " "))
+					ps = append(ps, srt)
+					p.specSigs[sp[0]] = SpecSig{[]string{tname}, srt}
+				}
+				p.specSigs[cp[0]] = SpecSig{ps, tname}
+			}
+		}
+	}
 }
 
 var sortAliasTable = map[string]string{}
